@@ -75,3 +75,135 @@ theorem hexDigit_of_nibble (n : Nat) (hn : n < 16) :
 theorem stripPrefix_prefix (r : Bytes) : stripPrefix (symbolPrefix ++ r) = some r := rfl
 
 end Dora.Symbol
+
+namespace Dora.Symbol
+
+/-! ### length cap -/
+
+theorem hexDigitsN_length (k n : Nat) : (hexDigitsN k n).length = k := by
+  induction k generalizing n with
+  | zero => rfl
+  | succ k ih => simp [hexDigitsN, ih]
+
+theorem hashSuffix_length (h : BitVec 128) : (hashSuffix h).length = 34 := by
+  simp [hashSuffix, hashHex, hexDigitsN_length]
+
+theorem hexDigitsN_charset (k n : Nat) : ∀ c ∈ hexDigitsN k n, isAlnum c = true ∧ c ≠ 72 ∧ c ≠ 95 := by
+  induction k generalizing n with
+  | zero => intro c h; simp [hexDigitsN] at h
+  | succ k ih =>
+    intro c h
+    simp only [hexDigitsN, List.mem_append, List.mem_singleton] at h
+    rcases h with h | h
+    · exact ih _ c h
+    · rw [h]; exact hexDigit_of_nibble _ (Nat.mod_lt _ (by decide))
+
+/-! ### "every `_` of an unshortened symbol body is followed by a hex digit, never by `H`" -/
+
+/-- no `_` is directly followed by `H` -/
+def escOK : Bytes → Bool
+  | [] => true
+  | [_] => true
+  | b :: c :: rest => (b != 95 || c != 72) && escOK (c :: rest)
+
+theorem escOK_cons_ne (b : UInt8) (rest : Bytes) (hb : b ≠ 95) : escOK (b :: rest) = escOK rest := by
+  cases rest with
+  | nil => rfl
+  | cons c r => simp [escOK, hb]
+
+theorem escOK_cons_us (c : UInt8) (rest : Bytes) (hc : c ≠ 72) : escOK (95 :: c :: rest) = escOK (c :: rest) := by
+  simp [escOK, hc]
+
+theorem escOK_mangleBody (bs : Bytes) : escOK (mangleBody bs) = true := by
+  induction bs with
+  | nil => rfl
+  | cons b bs ih =>
+    unfold mangleBody mangleByte
+    by_cases hb : isAlnum b = true
+    · simp only [hb, if_true, List.singleton_append]
+      rw [escOK_cons_ne _ _ (alnum_ne_underscore b hb)]; exact ih
+    · obtain ⟨a1, a2, n1, _⟩ := hexDigit_nibble b
+      have hb' : isAlnum b = false := by simpa using hb
+      simp only [hb', Bool.false_eq_true, if_false, List.cons_append, List.nil_append]
+      rw [escOK_cons_us _ _ n1, escOK_cons_ne _ _ (alnum_ne_underscore _ a1),
+        escOK_cons_ne _ _ (alnum_ne_underscore _ a2)]
+      exact ih
+
+theorem escOK_marker (pre post : Bytes) : escOK (pre ++ 95 :: 72 :: post) = false := by
+  induction pre with
+  | nil => simp [escOK]
+  | cons p pre ih =>
+    cases pre with
+    | nil => simp [escOK]
+    | cons q r =>
+      simp only [List.cons_append] at ih ⊢
+      simp [escOK, ih]
+
+/-! ### hash digits determine the hash -/
+
+def hexDigitVal (c : UInt8) : Nat := if c ≤ 57 then c.toNat - 48 else c.toNat - 55
+
+def unhexNat : Bytes → Nat := fun l => l.foldl (fun acc c => acc * 16 + hexDigitVal c) 0
+
+theorem hexDigitVal_hexDigit (n : Nat) (hn : n < 16) : hexDigitVal (hexDigit (UInt8.ofNat n)) = n := by
+  have : ∀ i : Fin 16, hexDigitVal (hexDigit (UInt8.ofNat i.val)) = i.val := by decide
+  exact this ⟨n, hn⟩
+
+theorem unhexNat_hexDigitsN (k n : Nat) : unhexNat (hexDigitsN k n) = n % 16 ^ k := by
+  induction k generalizing n with
+  | zero => simp [hexDigitsN, unhexNat, Nat.mod_one]
+  | succ k ih =>
+    have := ih (n / 16)
+    simp only [unhexNat] at this ⊢
+    simp only [hexDigitsN, List.foldl_append, List.foldl_cons, List.foldl_nil, this,
+      hexDigitVal_hexDigit _ (Nat.mod_lt n (by decide : 0 < 16))]
+    rw [Nat.pow_succ, Nat.mul_comm (16 ^ k) 16, Nat.mod_mul, Nat.add_comm, Nat.mul_comm]
+
+theorem hashHex_injective (h1 h2 : BitVec 128) (h : hashHex h1 = hashHex h2) : h1 = h2 := by
+  have e := congrArg unhexNat h
+  simp only [hashHex, unhexNat_hexDigitsN] at e
+  have l1 : h1.toNat < 16 ^ 32 := by have := h1.isLt; simpa using this
+  have l2 : h2.toNat < 16 ^ 32 := by have := h2.isLt; simpa using this
+  rw [Nat.mod_eq_of_lt l1, Nat.mod_eq_of_lt l2] at e
+  exact BitVec.eq_of_toNat_eq e
+
+/-! ### FNV-1a step is injective in the state and in the byte -/
+
+def fnvPrimeInv : BitVec 128 := 0xb1041ad2562ff2ff2ff2ff2ff2ff2ff3#128
+
+theorem fnvPrime_inv : fnvPrime * fnvPrimeInv = 1#128 := by decide +kernel
+
+theorem mul_prime_injective (x y : BitVec 128) (h : x * fnvPrime = y * fnvPrime) : x = y := by
+  have := congrArg (· * fnvPrimeInv) h
+  simp only [BitVec.mul_assoc, fnvPrime_inv, BitVec.mul_one] at this
+  exact this
+
+theorem xor_left_cancel (h a b : BitVec 128) (e : h ^^^ a = h ^^^ b) : a = b := by
+  have := congrArg (h ^^^ ·) e
+  simpa [← BitVec.xor_assoc] using this
+
+theorem xor_right_cancel (a b h : BitVec 128) (e : a ^^^ h = b ^^^ h) : a = b := by
+  have := congrArg (· ^^^ h) e
+  simpa [BitVec.xor_assoc] using this
+
+theorem fnvStep_state_injective (h1 h2 : BitVec 128) (b : UInt8) (e : fnvStep h1 b = fnvStep h2 b) : h1 = h2 :=
+  xor_right_cancel _ _ _ (mul_prime_injective _ _ e)
+
+theorem byte_ofNat_injective (b1 b2 : UInt8) (e : BitVec.ofNat 128 b1.toNat = BitVec.ofNat 128 b2.toNat) : b1 = b2 := by
+  have := congrArg BitVec.toNat e
+  simp only [BitVec.toNat_ofNat] at this
+  have l1 : b1.toNat < 2 ^ 128 := Nat.lt_trans b1.toNat_lt (by decide)
+  have l2 : b2.toNat < 2 ^ 128 := Nat.lt_trans b2.toNat_lt (by decide)
+  rw [Nat.mod_eq_of_lt l1, Nat.mod_eq_of_lt l2] at this
+  exact UInt8.toNat_inj.mp this
+
+theorem fnvStep_byte_injective (h : BitVec 128) (b1 b2 : UInt8) (e : fnvStep h b1 = fnvStep h b2) : b1 = b2 :=
+  byte_ofNat_injective _ _ (xor_left_cancel _ _ _ (mul_prime_injective _ _ e))
+
+theorem fnv_foldl_injective (suf : Bytes) (h1 h2 : BitVec 128)
+    (e : suf.foldl fnvStep h1 = suf.foldl fnvStep h2) : h1 = h2 := by
+  induction suf generalizing h1 h2 with
+  | nil => exact e
+  | cons b suf ih => exact fnvStep_state_injective _ _ b (ih _ _ e)
+
+end Dora.Symbol
